@@ -25,6 +25,8 @@ class Msg:
         self._def.update(z=1)  # W7: mutating method through a tainted field
 
     def pick(self):
+        Msg.counter = 1  # W10: attribute store on the class object
+        type(self).last = self  # W11: attribute store through type(self)
         return TABLE
 
     @lru_cache(maxsize=None)
